@@ -125,6 +125,48 @@ pub fn backward(ctx: &mut Ctx, m: &LMsg, noise: &mut dyn Noise, label: &str) {
                 );
             }
             ctx.count(&format!("backward.{}", label));
+            reencode(ctx, m, &got, label);
+        }
+    }
+}
+
+/// A decoded message is a message: re-encoding its (ordinary) attributes must give the
+/// canonical bytes again - reserved bits and padding that were noisy on the wire must come
+/// out zeroed, i.e. nothing ignorable may survive inside a decoded value.
+fn reencode(ctx: &mut Ctx, m: &LMsg, got: &stun_rs::StunMessage, label: &str) {
+    let ordinary: Vec<LAttr> = m.attrs.iter().filter(|a| !a.is_tail() && !matches!(a, LAttr::Unknown { .. })).cloned().collect();
+    if ordinary.is_empty() || ordinary.len() != m.attrs.iter().filter(|a| !a.is_tail()).count() {
+        return;
+    }
+    let canon = wire::build(&LMsg { attrs: ordinary.clone(), key: None, ..m.clone() }, &mut Zero);
+    let mut b = stun_rs::StunMessageBuilder::new(got.method(), got.class()).with_transaction_id(*got.transaction_id());
+    let mut n = 0;
+    for a in got.attributes() {
+        if a.is_message_integrity() || a.is_message_integrity_sha256() || a.is_fingerprint() || a.is_unknown() {
+            continue;
+        }
+        b = b.with_attribute(a.clone());
+        n += 1;
+    }
+    if n != ordinary.len() {
+        return;
+    }
+    let msg = b.build();
+    match encode(&msg, canon.len() + 8, 0x5A) {
+        Err(p) => report_panic(ctx, "re-encode", &p, witness(m, None)),
+        Ok(Err(e)) => ctx.violation("reencode-failed", format!("re-encoding a decoded message failed: {}", e), witness(m, None)),
+        Ok(Ok((buf, size))) => {
+            let out = &buf[..size.min(buf.len())];
+            if out != canon.as_slice() {
+                let off = out.iter().zip(canon.iter()).position(|(a, b)| a != b).unwrap_or(out.len().min(canon.len()));
+                let kind = kind_at(&LMsg { attrs: ordinary, key: None, ..m.clone() }, &canon, off);
+                ctx.violation(
+                    &format!("reencoded-bytes-not-canonical:{}:{}", label, kind),
+                    format!("a message decoded from bytes with noise in ignorable positions re-encodes to non-canonical bytes (first difference at offset {})", off),
+                    witness(m, Some(out)).set("canonical", J::s(hex_trunc(&canon, 300))),
+                );
+            }
+            ctx.count("reencode.compared");
         }
     }
 }
